@@ -50,7 +50,16 @@ def fs_config(r, zone, faulty=False):
         which = r.choice(["/etc/sysconfig/clock", "/etc/conf.d/clock"])
         key = r.choice(["ZONE", "TIMEZONE"])
         val = r.choice([zone, "/usr/share/zoneinfo/" + zone])
-        fs[which] = ["text", "# clock\nUTC=true\n%s=\"%s\"\n" % (key, val)]
+        # what such files really contain around the setting: comments, the previous setting
+        # commented out, other variables whose name ends in ZONE (openSUSE's DEFAULT_TIMEZONE)
+        other = r.choice([z for z in LOCAL_ZONES if z != zone])
+        pre = r.choice(["# clock\nUTC=true\n", "", "HWCLOCK=\"-u\"\n", "#%s=\"%s\"\n" % (key, other), "# %s=\"%s\"\n" % (r.choice(["ZONE", "TIMEZONE"]), other),
+                        "DEFAULT_TIMEZONE=\"%s\"\n" % other, "## Type: string\n## Default: \"%s\"\nSYSTOHC=\"yes\"\n" % other,
+                        "OLD_ZONE=\"%s\"  # ZONE=\"%s\"\n" % (other, other)])
+        post = r.choice(["", "", "ARC=false\n", "#%s=\"%s\"\n" % (key, other), "DEFAULT_TIMEZONE=\"%s\"\n" % other])
+        ind = r.choice(["", "", "  ", "\t"])
+        eq = r.choice(["=", "=", " = "])
+        fs[which] = ["text", "%s%s%s%s\"%s\"\n%s" % (pre, ind, key, eq, val, post)]
     else:
         pass   # nothing configured: UTC with a warning
     if faulty:
